@@ -48,6 +48,25 @@ fn p_cvec_view_grow() {
     kani::cover!(true, "reaches end");
 }
 #[kani::proof]
+#[kani::unwind(6)]
+fn p_cvec_view_reserve_partial() {
+    // a C caller growing a PARTIALLY filled vector by more than one element through the stored function
+    let mut v: Vec<u64> = Vec::with_capacity(2);
+    v.push(kani::any());
+    let first = v[0];
+    let cv = CVec::from(v);
+    let mut view: VecView<u64> = unsafe { core::mem::transmute_copy(&cv) };
+    core::mem::forget(cv);
+    assert!(view.len == 1 && view.capacity == 2);
+    let newcap = (view.reserve)(&mut view, 3);
+    assert!(view.capacity - view.len >= 3 && newcap == view.capacity, "C16 view.reserve(&view, n) leaves room for n more elements and returns the capacity");
+    let mut i = 0;
+    while i < 3 { unsafe { core::ptr::write(view.data.add(view.len), 100 + i as u64) }; view.len += 1; i += 1; }
+    assert!(unsafe { *view.data } == first && unsafe { *view.data.add(3) } == 102, "C16 contents preserved, appended elements in place");
+    unsafe { (view.drop.unwrap())(view.data, view.len, view.capacity) };
+    kani::cover!(true, "reaches end");
+}
+#[kani::proof]
 fn p_cvec_view_u8() {
     let x: u8 = kani::any();
     let mut v: Vec<u8> = Vec::with_capacity(3);
